@@ -215,8 +215,15 @@ let result_table () =
   List.iter (fun (n, e) -> Printf.printf "retryable %s %s\n" n (s_bool (is_retryable e)))
     ["send", ESend; "recv", EReceive; "timeout", ETimeout]
 
+let config_model arg =
+  let ns = if arg = "-" then [] else List.map (fun w -> nat_of_int (int_of_string w)) (split_on ',' arg) in
+  let (c, rs) = run_sets ns None in
+  Printf.printf "sets=%s capacity=%d\n" (String.concat "," (List.map (fun b -> if b then "ok" else "err") rs))
+    (int_of_nat (default_cap c))
+
 let () =
   if Array.length Sys.argv > 1 && Sys.argv.(1) = "--result-table" then (result_table (); exit 0);
+  if Array.length Sys.argv > 2 && Sys.argv.(1) = "--config" then (config_model Sys.argv.(2); exit 0);
   let script = ref "" and observed = ref "" and proj = ref "full" and dump = ref false in
   Arg.parse [ "--script", Arg.Set_string script, "script file";
               "--observed", Arg.Set_string observed, "observed views";
